@@ -19,7 +19,7 @@ import types
 from hypothesis import strategies as st
 
 from .. import clients, packs, stepped, vworld
-from ..runner import HarnessError, InvalidCase, Result, classify_exception
+from ..runner import HarnessError, InvalidCase, Result, SetupFailed, classify_exception
 
 ID = "C19"
 LEVEL = "exploration"
@@ -277,7 +277,7 @@ def _part_b(res, case):
             if full:
                 spa, ok = stepped.connect_threaded_spa(eng, sim)
                 if not ok:
-                    raise HarnessError("fault-free blocking handshake did not complete")
+                    raise SetupFailed("fault-free blocking handshake did not complete")
             else:
                 logging.getLogger("geckolib.spa").info("Starting spa connection handshake...")
                 sock = eng.attach(GeckoUdpSocket())
@@ -291,7 +291,7 @@ def _part_b(res, case):
                 eng.stop_when = lambda: req not in sock._receive_handlers and not eng.inbox and not sock._send_handlers
                 eng.run()
                 if req in sock._receive_handlers or not struct.had_at_least_one_block:
-                    raise HarnessError("fault-free blocking transfer did not complete")
+                    raise SetupFailed("fault-free blocking transfer did not complete")
     text = cap.text()
     nseg = sum(1 for ln in cap.lines if "<DATAS>STATV" in ln)
     snaps = _parse_text(res, text, "traffic")
